@@ -1581,6 +1581,11 @@ func symBinop(op token.Token, t types.Type, x, y value) value {
 		if sx == 'I' {
 			return symv{sort: 'I', term: "(- " + tx + " " + ty + ")"}
 		}
+	case token.MUL:
+		// linear only: one operand must be concrete
+		if sx == 'I' && (!isSym(x) || !isSym(y)) {
+			return symv{sort: 'I', term: "(* " + tx + " " + ty + ")"}
+		}
 	case token.LSS:
 		if sx == 'S' {
 			return b("str.<")
@@ -1685,6 +1690,13 @@ func intWidens(src, dst *types.Basic) bool {
 func eqnilv(t types.Type, x, y value) value {
 	switch t.Underlying().(type) {
 	case *types.Map, *types.Signature, *types.Slice:
+		// a symbolic []byte (JSON token / []byte(symbolic string)) is never nil
+		if _, ok := x.(symbytes); ok {
+			return false
+		}
+		if _, ok := y.(symbytes); ok {
+			return false
+		}
 		return eqnil(t, x, y)
 	}
 	return eqv(t, x, y)
